@@ -95,10 +95,10 @@ def wrap_texts(ctx):
     out += [(32, ""), (32, " "), (32, "   "), (32, " " * 40 + "abc"), (32, "a" * 31 + " " + "b" * 40),
             (32, "   ab  cd   "), (32, "x" * 100), (32, "aaaaaaaaaa bbbbbbbbbb cccccccc-dddddddddd eee"),
             (32, "a-b-c-d-e-f-g-h-i-j-k-l-m-n-o-p-q-r-s-t-u-v-w-x-y-z"), (32, "- -- --- " * 9)]
-    for _ in range(ctx.n(1500, 40000)):
+    for _ in range(ctx.n(1500, 15000)):
         w = 32 if rng.random() < 0.7 else rng.randint(1, 45)
         out.append((w, rand_line(rng, rng.choice([20, 80, 80, 130]))))
-    for _ in range(ctx.n(300, 8000)):
+    for _ in range(ctx.n(300, 3000)):
         # dense in spaces and hyphens
         n = rng.randint(0, 70)
         out.append((rng.choice([32, 32, 5, 10]), "".join(rng.choice("ab- -  x") for _ in range(n))))
@@ -389,10 +389,12 @@ def judge_composition(case, sizes, rd, rt):
         return {"stream": "B-composition", "input": inp, "model": [status, obs, ok],
                 "what": "the writer model composed with the SCC reader model does not re-read to the same words "
                         "(status %d: 0 read, 1 writer error, 2 not a document, 3 reader refused)" % status}
-    if isinstance(rd, Ok) and not near_threshold(case["caps"], sizes):
+    if isinstance(rd, Ok):
+        # audit w7: texts and caption count are compared on EVERY case; only the starts depend on the float boundary
         real = rd.v
+        near = near_threshold(case["caps"], sizes)
         same = len(real) == len(obs) and all(
-            r[1] == o[1] and abs(r[0] - Fraction(o[0][0], o[0][1])) <= Fraction(1, 1024) for r, o in zip(real, obs))
+            r[1] == o[1] and (near or abs(r[0] - Fraction(o[0][0], o[0][1])) <= Fraction(1, 1024)) for r, o in zip(real, obs))
         if not same:
             return {"stream": "B-composition", "input": inp, "impl": [[str(a), b] for a, b in real],
                     "model": [[str(Fraction(o[0][0], o[0][1])), o[1]] for o in obs],
@@ -413,8 +415,11 @@ def judge_theorem_domain(case, rec, rd, special):
         return {"stream": "B-theorem-domain", "input": inp, "model": rec["model_class"],
                 "what": "extracted composition contradicts C17_reread_class_on_domain / C17_roundtrip_ok (class %r)" % rec["model_class"]}
     if special or case["flags"].get("extended") or case["flags"].get("early_first"):
-        return {"stream": "B-theorem-domain", "input": inp,
-                "what": "the harness treats a case inside the theorems' domain as outside the property's domain"}
+        # a mismatch between the harness's own domain flags and the theorem domain says nothing about pycaption: counted
+        # (B_theorem_domain_but_not_judged), never an alarm; build_cases turns the generator's intentions into facts, so
+        # the count is expected to be 0
+        rec["domain_flag_mismatch"] = True
+        return None
     if not isinstance(rd, Ok):
         return {"stream": "B-theorem-domain", "input": inp, "impl": repr(rd)[:200], "model": rec["model_class"],
                 "what": "SCCReader refuses the SCCWriter output of a set inside the domain of the re-read theorems"}
@@ -483,8 +488,8 @@ def evaluate(cases):
                               "what": "code words per load in the implementation's document differ from the model's sizes"}
             elif not special and not case["flags"].get("extended") and not case["flags"].get("early_first"):
                 rec["dis"] = judge_composition(case, sizes, rd, rt)
-        if rec["viol"] is None and rec["dis"] is None:
-            rec["dis"] = judge_theorem_domain(case, rec, rd, special)
+        # audit w7: the theorem-domain judgement runs for EVERY case inside the domain, whatever else was found
+        rec["dis_domain"] = judge_theorem_domain(case, rec, rd, special)
         out.append(rec)
     # cases with a caption on more than 15 rows or a whitespace-only cue that failed: judge the OTHER cues on their own
     reqs2 = []
@@ -543,7 +548,7 @@ def shrink(case):
 
 def build_cases(ctx, counts):
     rng = ctx.rng
-    n = ctx.n(600, 20000)
+    n = ctx.n(600, 6000)        # thorough cut (audit w7): 20000 sets took > 40 min
     texts_list = [gen_texts(rng, counts) for _ in range(n)]
     w17 = " ".join(["a" * 17] * 4)                 # one line -> 4 rows
     w17x = w17 + " bbbbbbbb"                       # 80 characters, still 4 rows: no line of <= 80 characters gives 5
@@ -591,7 +596,31 @@ def build_cases(ctx, counts):
         k += len(texts)
         spans = schedule(rng, sizes, flags)
         cases.append({"caps": [{"lines": lines, "start": s, "end": e, "shape": shape} for (lines, shape), (s, e) in zip(texts, spans)],
-                      "flags": flags})
+                      "flags": flags, "sizes0": sizes[0] if sizes else 8})
+    # fixed corpus (integrator, thorough seed 0): the flag said 'extended' / 'early_first' but the set is in fact inside the
+    # domain (every character is in the tree's basic table; the start, rounded up to a frame, equals the transmission time)
+    cases.append({"caps": [{"lines": ["R w:--S- C9kz  FMU\u00e78 \u00e9nwP\u00ed  NO!j", "%-IBRrJ#j\u00e1IPNZ iYbw6q8I[P#KrP]D4",
+                                      "o\u00e7V@>sh-UYCx-B#+.Sb\u00e9a--OwCwJ\u00e7 e3", "!G-- i x\u00f1 3Vb)g\u00ed"],
+                            "start": Fraction(2402400), "end": Fraction(2452400),
+                            "shape": {"cuts": {"0": [0, 14, 30], "2": [10, 17], "3": [2, 10]}}}],
+                  "flags": {"extended": True}, "sizes0": 72})
+    cases.append({"caps": [{"lines": ["HW3vZ \u00fa0k27- c0OsKS[t\u00edhUE\u00edC\u00e9f$ygKXH\u00e1l"], "start": Fraction(1001000),
+                            "end": Fraction(1051000), "shape": {"layout": True}}],
+                  "flags": {"early_first": True}, "sizes0": 30})
+    # the flags are the generator's INTENTIONS; what the harness judges by must be FACTS (an 'extended' character can be cut
+    # off at 80 columns or be absent from a copied cue; an 'early' start rounded up to a frame can be feasible after all)
+    basic = set(BASIC)
+    for case in cases:
+        f = dict(case["flags"])
+        has_ext = any(ch not in basic for c in case["caps"] for l in c["lines"] for ch in l)
+        early = bool(case["caps"]) and case["caps"][0]["start"] < case.pop("sizes0") * MPC
+        for name, fact in (("extended", has_ext), ("early_first", early)):
+            if f.get(name) and not fact:
+                del f[name]
+                counts["B_flag_%s_not_realised(judged as in-domain)" % name] = counts.get("B_flag_%s_not_realised(judged as in-domain)" % name, 0) + 1
+            elif fact and not f.get(name):
+                f[name] = True
+        case["flags"] = f
     return cases
 
 
@@ -718,11 +747,16 @@ def run(ctx):
             res["violations"].append(viol)
         if dis is not None:
             res["disagreements"].append(dis)
+        if rec.get("dis_domain") is not None:
+            res["disagreements"].append(rec["dis_domain"])
+        dist["B_theorem_domain_but_not_judged(harness flag mismatch; expected 0)"] = \
+            dist.get("B_theorem_domain_but_not_judged(harness flag mismatch; expected 0)", 0) + int(bool(rec.get("domain_flag_mismatch")))
+        dist["B_theorem_domain_cases_judged(= inside domain)"] = dist.get("B_theorem_domain_cases_judged(= inside domain)", 0) + int(rec["thm_domain"])
     dist["B_rows_per_caption"] = {str(k): v for k, v in sorted(rows_hist.items())}
     in_domain = [c for c in cases[30:] if all(len(l) <= 80 for cp in c["caps"] for l in cp["lines"])
                  and not c["flags"].get("extended") and not c["flags"].get("early_first")
                  and not any(is_blank_text(cp["lines"]) for cp in c["caps"])]
-    run_reused_reader(ctx, res, in_domain[:ctx.n(200, 4000)])
+    run_reused_reader(ctx, res, in_domain[:ctx.n(200, 1500)])
     res["samples"] = [plain(c) for c in cases[9:12]]
     res["rule"] = ("A: texts over the tree's basic character set (word lengths 1..40, space runs, hyphens, lengths "
                    "around the width), non-trivial = wraps to more than one row. B: API-built caption sets of 1-40 "
